@@ -115,6 +115,9 @@ def _case(draw, tier):
         case["pre"] = leaf(draw, ctx, draw(st.sampled_from([[0, 1], [0, 1], [0], [1]]))) if chance(draw, 3, 4) else None
         case["sub_cond"] = leaf(draw, ctx, draw(st.sampled_from([[0, 1], [0, 1], [1]])))
         case["sub_attr"] = draw(st.sampled_from(["a", "b"]))
+        # ... or the sub-query itself as the argument of a predicate: IsBig(sub), p_a_ge(sub, n), HasType(sub, T)
+        case["pred_form"] = draw(st.sampled_from([None, None, ["cpred", "IsBig"], ["fpred", "p_a_ge", draw(st.sampled_from([0, 1, 2]))],
+                                                  ["hastype", draw(st.sampled_from(["EntSub", "EntPlain", "EntV"]))]]))
         case["op"] = draw(st.sampled_from(["==", "==", "!=", "<=", ">"]))
         case["other"] = draw(st.sampled_from([["const", draw(st.sampled_from(ctx.P["ints"]))], ["const", draw(st.sampled_from(ctx.P["ints"]))],
                                               ["attr", ["var", 0], draw(st.sampled_from(["a", "b"]))]]))
@@ -232,6 +235,10 @@ def check(case) -> Outcome:
             sub_side_l = case["sub_side"] == "left"
             cmp_ast = ["cmp", case["op"], ["attr", ["var", 1], case["sub_attr"]], case["other"]] if sub_side_l else \
                 ["cmp", case["op"], case["other"], ["attr", ["var", 1], case["sub_attr"]]]
+            pf = case.get("pred_form")
+            if pf is not None:
+                cmp_ast = ["cpred", pf[1], [["var", 1]]] if pf[0] == "cpred" else \
+                    (["fpred", pf[1], [["var", 1], ["const", pf[2]]]] if pf[0] == "fpred" else ["hastype", ["var", 1], pf[1]])
             sel = [t[1] for t in case["sel"]]
             expected, seen, n_sub = [], set(), 0
             for x0, x1 in itertools.product(doms[0], doms[1]):
@@ -248,7 +255,8 @@ def check(case) -> Outcome:
             nontrivial = 0 < n_sub < n_all and 0 < len(expected)
             classes += ["sub_correlated" if 0 in A.cond_vars(case["sub_cond"]) else "sub_uncorrelated",
                         "other_const" if case["other"][0] == "const" else "other_outer_attr", f"selected{len(sel)}",
-                        "combined_by_" + case.get("conn", "and")]
+                        "combined_by_" + case.get("conn", "and"),
+                        "subquery_is_" + ("attribute_operand" if pf is None else "argument_of_" + pf[0])]
             if case.get("conn") == "or":
                 feats.append("operand_attr_combined_by_or")      # KF-44
 
@@ -259,11 +267,16 @@ def check(case) -> Outcome:
                     pre = [build_cond(case["pre"], V)] if case["pre"] is not None else []
                     if which == "composed":
                         sub = an(entity(x, build_cond(case["sub_cond"], V)))
-                        st_ = getattr(sub, case["sub_attr"])
-                        ot = build_term(case["other"], V)
-                        import operator as _op
-                        f = {"==": _op.eq, "!=": _op.ne, "<=": _op.le, ">": _op.gt}[case["op"]]
-                        mine = [f(st_, ot) if sub_side_l else f(ot, st_)]
+                        if pf is not None:
+                            # the predicate's argument is the sub-query: build the predicate over a stand-in list of
+                            # variables in which the sub-query takes the place of x
+                            mine = [build_cond(cmp_ast, [l, sub])]
+                        else:
+                            st_ = getattr(sub, case["sub_attr"])
+                            ot = build_term(case["other"], V)
+                            import operator as _op
+                            f = {"==": _op.eq, "!=": _op.ne, "<=": _op.le, ">": _op.gt}[case["op"]]
+                            mine = [f(st_, ot) if sub_side_l else f(ot, st_)]
                     else:
                         mine = [build_cond(case["sub_cond"], V), build_cond(cmp_ast, V)]
                     if case.get("conn") == "or":
@@ -355,6 +368,10 @@ def render(case):
         sub = f"an(entity(v1, {A.r_cond(case['sub_cond'])})).{case['sub_attr']}"
         other = A.r_term(case["other"])
         cmp_ = f"{sub} {case['op']} {other}" if case["sub_side"] == "left" else f"{other} {case['op']} {sub}"
+        if case.get("pred_form") is not None:
+            pf = case["pred_form"]
+            subq = f"an(entity(v1, {A.r_cond(case['sub_cond'])}))"
+            cmp_ = f"{pf[1]}({subq})" if pf[0] == "cpred" else (f"{pf[1]}({subq}, {pf[2]})" if pf[0] == "fpred" else f"HasType({subq}, {pf[1]})")
         pre = A.r_cond(case["pre"]) if case["pre"] is not None else None
         r["query"] = f"an(set_of({[A.r_term(t) for t in case['sel']]}, " + ", ".join(
             [x for x in ([pre, cmp_] if case["pre_first"] else [cmp_, pre]) if x]) + "))" + \
